@@ -264,6 +264,7 @@ def scan_skips_empty(ctx, rule='C07.scan-skips-empty'):
         nxt, cur = ctx.need('<Cursor as Iterator>::next', 'Cursor::current')
     except AnchorError as e:
         return [unresolved(rule, str(e))]
+    nxt = ctx.x(nxt)       # with its private helpers folded in (`settle`, `advance`, `current_or_following` ...)
     sites = calls_to_fn(F, nxt, cur)
     f = floor(rule, 'calls of Cursor::current in Cursor::next', len(sites), 1)
     if f:
